@@ -232,7 +232,7 @@ pub fn run(ctx: &Ctx) -> CheckResult {
             let mut base = bases[i].clone();
             base.steps.truncate(1);
             base.name = format!("compile+debuginfo:{}", &bases[i].name["debuginfo:".len()..]);
-            jobs.push(FaultJob { base, step: 0, space: FaultSpace { read_side: false, write_side: true, budgets, seed: rng::mix(ctx.seed, &bases[i].name, 2) }, noise: k == 0 || !quick, max_variants: 0 });
+            jobs.push(FaultJob { base, step: 0, space: FaultSpace { read_side: false, write_side: true, meta_side: false, budgets, seed: rng::mix(ctx.seed, &bases[i].name, 2) }, noise: k == 0 || !quick, max_variants: 0 });
         }
     }
     let camp = run_fault_campaign(ctx, &jobs);
